@@ -67,6 +67,7 @@ fn source_geometry(d: &Data) -> Value {
         .map(|s| {
             json!({"name": s.name,
                 "rect": s.geometry.as_ref().map(|g| json!({"x": f(g.x), "y": f(g.y), "z": f(g.z), "height": f(g.height), "width": f(g.width), "azimuth": f(g.azimuth), "tilt": f(g.tilt)})),
+                "trig": s.geometry.as_ref().map(|sg| json!({"g": cs(g), "a": cs(sg.azimuth), "t": cs(sg.tilt)})),
                 "verts": s.vertices.as_ref().map(|v| v.iter().map(|p| json!([f(p.x), f(p.y), f(p.z)])).collect::<Vec<_>>())})
         })
         .collect();
